@@ -6,7 +6,7 @@ from .. import rails, colang2
 from ..cobase import py_expr, vars_in
 from ..coflow import AObj, TOP, Walker
 from ..pycfg import CFG, walk_no_nested
-from ..source import AnalysisError, find_function, functions, qualname, src, first_line, enclosing_function
+from ..source import atoms, AnalysisError, find_function, functions, qualname, src, first_line, enclosing_function
 from . import _railrules
 
 P = "C01"
@@ -64,6 +64,8 @@ def run(ctx):
     c_rewrite_carried(ctx)
     a_pending_message(ctx)
     c_passthrough_history(ctx)
+    a_trigger_by_type(ctx)
+    c_runnable_passthrough(ctx)
     _railrules.context_globals(ctx, "C01.e.context-globals", ("input", "retrieval", "generic"))
 
 
@@ -484,6 +486,62 @@ def _is_rewritten_text(e):
     return isinstance(e, ast.Subscript) and isinstance(e.slice, ast.Constant) and e.slice.value == "text" and isinstance(e.value, ast.Name)
 
 
+def _base_iter(e):
+    """the collection an iteration expression walks over: reversed(X) / list(X) / X[::-1] / X.copy() -> X"""
+    while True:
+        if isinstance(e, ast.Call) and isinstance(e.func, ast.Name) and e.func.id in ("reversed", "list", "tuple", "iter") and len(e.args) == 1:
+            e = e.args[0]
+        elif isinstance(e, ast.Call) and isinstance(e.func, ast.Attribute) and e.func.attr == "copy" and not e.args:
+            e = e.func.value
+        elif isinstance(e, ast.Subscript) and isinstance(e.slice, ast.Slice):
+            e = e.value
+        else:
+            return e
+
+
+def _loop_rewrites(fn, holders):
+    """Stores `<m>["content"] = <t>` inside a loop `for m, t in zip(<messages>, <texts>)` where <messages> holds the very dict objects of a prompt holder (a selection of its
+    elements: `[x for x in P if ...]`) and <texts> are the texts of the UserMessage events (`[e["text"] for e in events if e["type"] == "UserMessage"]`).
+    Returns [(store statement, holder name)]."""
+    shares = {h: h for h in holders}     # name -> holder whose element objects it shares
+    texts = set()
+    changed = True
+    while changed:
+        changed = False
+        for a in walk_no_nested(fn):
+            if not (isinstance(a, ast.Assign) and len(a.targets) == 1 and isinstance(a.targets[0], ast.Name)):
+                continue
+            nm, v = a.targets[0].id, a.value
+            if isinstance(v, ast.ListComp) and len(v.generators) == 1:
+                g = v.generators[0]
+                b = _base_iter(g.iter)
+                if isinstance(v.elt, ast.Name) and isinstance(g.target, ast.Name) and v.elt.id == g.target.id and isinstance(b, ast.Name) and b.id in shares and nm not in shares:
+                    shares[nm] = shares[b.id]
+                    changed = True
+                if _is_rewritten_text(v.elt) and any("UserMessage" in src(i) for i in g.ifs) and nm not in texts:
+                    texts.add(nm)
+                    changed = True
+            else:
+                b = _base_iter(v)
+                if isinstance(b, ast.Name) and b is not v and b.id in shares and nm not in shares:
+                    shares[nm] = shares[b.id]
+                    changed = True
+    out = []
+    for l in walk_no_nested(fn):
+        if not isinstance(l, ast.For):
+            continue
+        pairs = []
+        if isinstance(l.iter, ast.Call) and isinstance(l.iter.func, ast.Name) and l.iter.func.id == "zip" and isinstance(l.target, ast.Tuple) and len(l.target.elts) == len(l.iter.args):
+            pairs = list(zip(l.target.elts, l.iter.args))
+        msg = {t_.id: shares[_base_iter(it).id] for t_, it in pairs if isinstance(t_, ast.Name) and isinstance(_base_iter(it), ast.Name) and _base_iter(it).id in shares}
+        txt = {t_.id for t_, it in pairs if isinstance(t_, ast.Name) and isinstance(_base_iter(it), ast.Name) and _base_iter(it).id in texts}
+        for a in ast.walk(l):
+            if isinstance(a, ast.Assign) and isinstance(a.targets[0], ast.Subscript) and isinstance(a.targets[0].slice, ast.Constant) and a.targets[0].slice.value == "content" \
+                    and isinstance(a.targets[0].value, ast.Name) and a.targets[0].value.id in msg and isinstance(a.value, ast.Name) and a.value.id in txt:
+                out.append((a, msg[a.targets[0].value.id]))
+    return out
+
+
 def c_raw_request(ctx):
     """The raw request (raw_llm_request context variable) is a second channel that carries the
     un-rewritten user text into the Colang-1 prompt path.  Every prompt built from it must have
@@ -525,6 +583,11 @@ def c_raw_request(ctx):
                               and isinstance(n.ast.targets[0].value, ast.Subscript) and src(n.ast.targets[0].value.slice) == "-1"
                               and isinstance(n.ast.targets[0].value.value, ast.Name) and _is_rewritten_text(n.ast.value)]
                     good = [n for n in stores if n.ast.targets[0].value.value.id in holders and n in cfg.reachable([dn]) and cn in cfg.reachable([n])]
+                    # or: every user message of the prompt is overwritten in a loop with the text of its UserMessage event
+                    for st_, hold in _loop_rewrites(fn, holders):
+                        ln = cfg.node_of(st_)
+                        if ln is not None and ln in cfg.reachable([dn]) and cn in cfg.reachable([ln]):
+                            good.append(ln)
                     ok = bool(good)
                     ctx.check("C01.c.raw-request", GEN1, qualname(fn), first_line(d), ok,
                               "the prompt built from the raw request gets its last user message overwritten with the rewritten text (`%s`) through an object that reaches the prompt" % first_line(good[0].ast, 60) if ok else
@@ -602,6 +665,59 @@ def c_rewrite_carried(ctx):
                   line=c.lineno)
 
 
+RT1_ = "nemoguardrails/colang/v1_0/runtime/runtime.py"
+RR_ = "nemoguardrails/integrations/langchain/runnable_rails.py"
+
+
+def a_trigger_by_type(ctx):
+    """`generate(messages=[..., user A, user B])` turns every unanswered user message into an UtteranceUserActionFinished event, and each starts an instance of `process user
+    input`.  The older instance must be ABORTED by the newer utterance: that needs the flow to be registered as triggered by that event type, which _load_flow_config decides
+    from the flow's elements.  Elements are dicts identified by their `_type` (the way every other consumer reads them); a test on a key named like the event type never holds,
+    the stale instance survives, both instances advance in lockstep on the shared counter `$i` of `run input rails`, and every second configured rail is skipped for the newest
+    message (F147)."""
+    t = ctx.tree.ast(RT1_)
+    fn = find_function(t, "_load_flow_config", "RuntimeV1_0")
+    if fn is None:
+        raise AnalysisError("RuntimeV1_0._load_flow_config not found", anchor=RT1_ + "::RuntimeV1_0._load_flow_config")
+    apps = [c for c in ast.walk(fn) if isinstance(c, ast.Call) and isinstance(c.func, ast.Attribute) and c.func.attr == "append" and "trigger_event_types" in src(c.func.value)
+            and c.args and isinstance(c.args[0], ast.Constant)]
+    ctx.floor("C01.a.trigger-by-type", RT1_, "registrations of an additional trigger event type", len(apps), 1)
+    for c in apps:
+        ev = c.args[0].value
+        guards = [g for g in _anc(c, fn) if isinstance(g, ast.If)]
+        ok = False
+        for g in guards:
+            for a in atoms(g.test):
+                if isinstance(a, ast.Compare) and len(a.ops) == 1 and isinstance(a.ops[0], ast.Eq):
+                    sides = [a.left, a.comparators[0]]
+                    if any(isinstance(x, ast.Constant) and x.value == ev for x in sides) and any("_type" in src(x) for x in sides):
+                        ok = True
+        ctx.check("C01.a.trigger-by-type", RT1_, "RuntimeV1_0._load_flow_config", "trigger %s" % ev, ok,
+                  "a flow is registered as triggered by `%s` when one of its elements has that `_type`" % ev if ok else
+                  "the registration of `%s` as trigger is guarded by `%s`, which does not compare the element's `_type`: no element has a key named like the event type, so flows "
+                  "waiting for a user utterance are never restarted by a new one - with two unanswered user messages in `messages`, two runs of the input rails share the counter "
+                  "`$i` and every second configured rail is skipped for the newest message" % (ev, first_line(guards[0].test, 60) if guards else "nothing"), line=c.lineno)
+
+
+def c_runnable_passthrough(ctx):
+    """RunnableRails hands the generation step to the wrapped runnable.  Its input was captured BEFORE the input rails ran (`passthrough_input`); the text a rail rewrote lives in
+    `$user_message`.  The function that invokes the runnable must take the rewritten text from the context."""
+    if not ctx.tree.exists(RR_):
+        return
+    t = ctx.tree.ast(RR_)
+    fns = [f for f in ast.walk(t) if isinstance(f, (ast.FunctionDef, ast.AsyncFunctionDef)) and f.name == "passthrough_fn"]
+    ctx.floor("C01.c.runnable-passthrough", RR_, "passthrough functions of RunnableRails", len(fns), 1)
+    for f in fns:
+        reads_raw = any(isinstance(c, ast.Call) and src(c.func) == "context.get" and c.args and isinstance(c.args[0], ast.Constant) and c.args[0].value == "passthrough_input" for c in ast.walk(f))
+        reads_rw = any((isinstance(c, ast.Call) and src(c.func) == "context.get" and c.args and isinstance(c.args[0], ast.Constant) and c.args[0].value == "user_message") or
+                       (isinstance(c, ast.Subscript) and src(c.value) == "context" and isinstance(c.slice, ast.Constant) and c.slice.value == "user_message") for c in ast.walk(f))
+        ok = (not reads_raw) or reads_rw
+        ctx.check("C01.c.runnable-passthrough", RR_, "RunnableRails.passthrough_fn", "input of the wrapped runnable", ok,
+                  "the wrapped runnable is invoked with the user message as the input rails left it (`$user_message`)" if ok else
+                  "the wrapped runnable is invoked with `passthrough_input`, captured before the input rails ran: a message that a rail masked / rewrote reaches the chain (and its LLM) "
+                  "in its original form", line=f.lineno)
+
+
 def a_pending_message(ctx):
     """`generate(messages=[...])`: only a user message that has ALREADY BEEN ANSWERED may be replayed as processed (UtteranceUserActionFinished + UserMessage).  The newest
     user message must reach the input rails even when it is followed by an `event`/`system`/`context` element: the synthesized UserMessage must be conditional on a later
@@ -645,4 +761,14 @@ def c_passthrough_history(ctx):
                       "every user message of the raw request is replaced by its rewritten text" if not only_last else
                       "only the LAST message of the raw request is overwritten with the rails' rewritten text: in a multi-turn passthrough conversation the earlier user messages are sent "
                       "to the LLM as typed, although an input rail masked/rewrote them in their own turn", line=a.lineno)
+        # loop form: every user message of the prompt gets the text of its UserMessage event
+        reads = {a.targets[0].id for a in walk_no_nested(fn) if isinstance(a, ast.Assign) and isinstance(a.value, ast.Call) and src(a.value.func) == "raw_llm_request.get"
+                 and isinstance(a.targets[0], ast.Name)}
+        if reads:
+            prompts = {a.targets[0].id for a in walk_no_nested(fn) if isinstance(a, ast.Assign) and len(a.targets) == 1 and isinstance(a.targets[0], ast.Name)
+                       and any(isinstance(x, ast.Name) and x.id in reads for x in ast.walk(a.value))}
+            for st_, hold in _loop_rewrites(fn, prompts | reads):
+                n += 1
+                ctx.check("C01.c.passthrough-history", GEN1, qualname(fn), first_line(st_, 60), True,
+                          "every user message of the prompt built from the raw request is replaced by the text of its UserMessage event (newest first)", line=st_.lineno)
     ctx.floor("C01.c.passthrough-history", GEN1, "stores of the rewritten text into the raw request", n, 1)
